@@ -90,6 +90,7 @@ type Call struct {
 	Ctx      any // filled by the OnCall hook (e.g. live policy pointer)
 	Epoch    int
 	Injected string // kind of the fault rule that fired on this call ("" = none; stalls are not recorded here)
+	retStall time.Duration // "stall_ret": the call's result is delivered this much later than it was computed
 }
 
 // Fault rule: fires on the Nth matching call (1-based), Count times (0 = once).
@@ -97,7 +98,7 @@ type Fault struct {
 	Op      string // backend op name ("" = any)
 	PathSfx string // path suffix ("" = any)
 	Nth     int
-	Kind    string // eio enospc eacces short stall
+	Kind    string // eio enospc eacces short stall stall_ret
 	Short   int    // bytes actually transferred for "short"
 	Stall   time.Duration
 	Repeat  bool
@@ -273,7 +274,7 @@ func (v *View) begin(c *Call) (*Call, *Fault) {
 			}
 		}
 	}
-	if hit != nil && hit.Kind != "stall" {
+	if hit != nil && hit.Kind != "stall" && hit.Kind != "stall_ret" {
 		f.injected++
 		c.Injected = hit.Kind
 	}
@@ -288,6 +289,12 @@ func (v *View) begin(c *Call) (*Call, *Fault) {
 	if hit != nil && hit.Kind == "stall" {
 		simrt.Fault("fs.stall")
 		simrt.Sleep(hit.Stall)
+		hit = nil
+	}
+	if hit != nil && hit.Kind == "stall_ret" {
+		// a slow answer: the backend does its work now, the caller sees the result only later - what it
+		// then holds describes the past (widens every "read the backend, then fill a cache" window)
+		c.retStall = hit.Stall
 		hit = nil
 	}
 	// reader/writer edges of a thread-safe backend, taken right before the body runs
@@ -326,6 +333,10 @@ func (v *View) end(c *Call, err error) error {
 	}
 	if hook != nil {
 		hook(*c)
+	}
+	if c.retStall > 0 {
+		simrt.Fault("fs.stall_ret")
+		simrt.Sleep(c.retStall)
 	}
 	simrt.Yield(simrt.ClassFS, "fs."+c.Op+".ret")
 	return err
